@@ -38,8 +38,8 @@ func (c *c19) Meta() engine.Meta {
 		LevelName: "number of deviations of the history from the default",
 		Technique: "exhaustive (path x key x height x moment) query enumeration over deviation-bounded histories on the real application: immutability, agreement with the committed state dump, twin oracle for read-onlyness",
 		Rule: "histories: dense history (g3, g4L), small-stake/evidence history, a history with delegatees whose own stake is below the validator minimum and a validator that delegates to another validator (g3bm), each with every single appended deviation from a stake/governance menu, and with one restart at several boundaries. " +
-			"At every gap between consensus calls (before/after BeginBlock, after each DeliverTx, after EndBlock, after Commit) EVERY query of the universe is asked: paths account / delegatee / stakes / stakes/total_power / reward / proposal / gov_params x keys {U0,U1,W,V0,V1,V2,V3,X, every proposal hash, none} x heights {0, 1..latest, latest+1}. " +
-			"Oracle: (1) the answer returned for (path,key,h) (bytes, after JSON key-order canonicalisation) never changes once h is committed - also in the middle of later blocks, after later blocks and after a restart; (2) the first answer agrees with the complete state dump taken at height h (account nonce/balance/name, delegatee powers and stakes, an owner's stakes, total power, withdrawable reward, proposal status, parameters); (3) height 0 == latest; (4) a height beyond the latest is an error; (5) the replica that served all these queries (and vm-less CheckTx-free traffic only) returns the same consensus responses as a replica that served none. " +
+			"At every gap between consensus calls (before/after BeginBlock, after each DeliverTx, after EndBlock, after Commit) the node first serves 12 CheckTx requests (withdrawals, transfer, staking, setdoc, unstaking, votes, proposal: pending mempool checks that write into the mempool views of five ledgers), then EVERY query of the universe is asked: paths account / delegatee / stakes / stakes/total_power / reward / proposal / gov_params x keys {U0,U1,W,V0,V1,V2,V3,X, every proposal hash, none} x heights {0, 1..latest, latest+1}. " +
+			"Oracle: (1) the answer returned for (path,key,h) (bytes, after JSON key-order canonicalisation) never changes once h is committed - also in the middle of later blocks, after later blocks and after a restart; (2) the first answer agrees with the complete state dump taken at height h (account nonce/balance/name, delegatee powers and stakes, an owner's stakes, total power, withdrawable reward, proposal status, parameters); (3) height 0 == latest; (4) a height beyond the latest is an error; (5) the replica that served all these mempool checks and queries returns the same consensus responses as a replica that served none. " +
 			"evaluations = histories; counters.queries = individual queries. distinct_nontrivial = histories in which at least one historical answer differs from the latest answer for the same key (the history really changed what is queried).",
 		Assumptions: []string{
 			"stakes/voting_power evaluates historical trees with the CURRENT parameters and is not in the statement's list; it is compared only for immutability in histories without parameter changes, i.e. not at all here",
@@ -201,9 +201,23 @@ func (c *c19) RunDesc(desc json.RawMessage) engine.Result {
 		hk.RestartAfter = map[int64]bool{cs.Restart: true}
 	}
 	var run *sim.RunResult
+	// pending mempool checks: before the queries of every gap the node serves CheckTx requests that write into the
+	// mempool views of the account, delegatee, unbonding, reward and proposal ledgers
+	pending := []sim.TxSpec{wdr("V0", "1"), wdr("V1", "1"), wdr("U0", "1"), tr("U0", "U1", "1R"), stk("U1", "V1", "1R"), stk("W", "W", "3R"), setdoc("U1", "mm", "http://m"),
+		unstk("U0", "U0", "V1", 0), unstk("V2", "V2", "V2", 0), vote("V1", 0, 1), vote("V2", 0, 0), prop("V1", 1, 1, 1, `{"slashRatio":"60"}`)}
+	npend, npendOK := 0, 0
 	hk.Gap = func(ch *sim.Chain, hh int64, kind string, idx int) {
 		if kind == "post-commit" {
 			states = run.States
+		}
+		if hh >= 2 {
+			for _, t := range pending {
+				rec := ch.Check(t, nil)
+				npend++
+				if rec.Code == 0 && rec.Panic == "" {
+					npendOK++
+				}
+			}
 		}
 		ask(ch, fmt.Sprintf("block %d %s#%d", hh, kind, idx))
 	}
@@ -232,6 +246,8 @@ func (c *c19) RunDesc(desc json.RawMessage) engine.Result {
 	res.Violations = viols
 	res.Transitions = nq
 	res.Count("queries", nq)
+	res.Count("pending_mempool_checks", npend)
+	res.Count("pending_mempool_checks_accepted", npendOK)
 	res.Count("distinct_historical_answers", len(first))
 	res.Nontrivial = changed
 	res.Outcome = shortHash(strings.Join(la, "\n"))
@@ -418,6 +434,9 @@ func agreeWithState(path, name string, key []byte, code uint32, val []byte, st *
 func (c *c19) Guards(a *engine.Agg, complete bool) []string {
 	if a.Counters["queries"] < 10000 {
 		return []string{"fewer than 10000 queries"}
+	}
+	if a.Counters["pending_mempool_checks_accepted"] == 0 {
+		return []string{"no pending mempool check was accepted"}
 	}
 	return nil
 }
